@@ -33,7 +33,45 @@ def run(ctx):
     jobs = boolfam.run_jobs(ctx, J)
     boolfam.tally(ctx, jobs)
     boolfam.validate(ctx, jobs)
+    sweep_intersections(ctx, i)
     return core.finish(ctx, "model_checking", RULE, confirm=boolfam.confirm("C03"))
+
+def sweep_intersections(ctx, i0):
+    """Layer 2 as a search director (DESIGN.md 3.6): a wide native sweep of natively general-position inputs with coordinates around +-500
+    records every intersection the sweep processes (hook H2); VattiTrace!TIsBig states what must hold for ANY input (the point lies in the
+    scanbeam being processed).  A failure is an engine-level divergence, never a verdict: the inputs concerned are ESCALATED to the
+    observable clauses above."""
+    import json
+    q = ctx.quick; exe = core.build("plain", ("vatti",))
+    sj = [{"seed": ctx.seed * 1000 + 400 + k, "n": 15000 if q else 150000, "R": 1000, "off": -500, "maxv": 3 + k % 2, "out": ctx.path("isects_%02d.ndjson" % k)} for k in range(8 if q else 16)]
+    def one(j):
+        cmd = [exe, "isects"]
+        for k, v in j.items():
+            cmd += ["--" + k, str(v)]
+        p = core.sh(cmd, timeout=3000)
+        if p.returncode != 0:
+            raise core.ModelFailure("harness isects failed: " + p.stderr.decode(errors="replace")[-1000:])
+    core.run_parallel(one, sj)
+    res = core.validate_traces("VattiTrace", "VattiTrace.cfg", [j["out"] for j in sj], timeout=1500)
+    nis = 0; div = []; cases = []
+    for f, r in res:
+        ctx.add_tlc(r); lines = core.read_lines(f)
+        nis += sum(ln.count("],[") + 1 for ln in lines if ln.startswith('{"e":"IsBig"'))
+        for fl in r.fails:
+            if fl["prop"] == "ANY":
+                core.fail_rec(ctx, lines, fl, {"harness": {"variant": "plain", "args": {"cfg": "batch", "npts": 24, "gpcert": 1, "reunion": 0, "seed": ctx.seed}}})
+                continue
+            c = json.loads(lines[fl["line"] - 1]); div.append({"clause": fl["clause"], "detail": fl["detail"], "subj": c["subj"], "clip": c["clip"]})
+            cases.append(json.dumps({"subj": c["subj"], "clip": c["clip"]}))
+    ctx.extra["sweep_intersections_validated"] = nis
+    ctx.extra["engine_divergences_intersections"] = {"count": len(div), "clauses": sorted({d["clause"] for d in div}), "sample": div[:2]}
+    if cases:
+        core.log("[C03] %d engine-level divergence(s) (%s): escalating to the observable clauses on those inputs" % (len(div), ", ".join(sorted({d["clause"] for d in div}))))
+        inf = ctx.path("escalate_isects.ndjson")
+        with open(inf, "w") as fh:
+            fh.write("\n".join(sorted(set(cases))[:1500]) + "\n")
+        ej = [boolfam.harness_job(ctx, i0 + 100 + k, "plain", {"fam": "in", "in": inf, "n": 0, "skip": k, "stride": 4, "emb": "0", "cfg": "batch", "npts": 24, "gpcert": 1, "reunion": 0, "seed": ctx.seed}) for k in range(4)]
+        ej = boolfam.run_jobs(ctx, ej); boolfam.tally(ctx, ej); boolfam.validate(ctx, ej)
 
 def replay(path, seed):
     return boolfam.replay_file(path, "C03")
